@@ -20,3 +20,14 @@ pub assume_specification [u8::from_str_radix] (s: &str, radix: u32) -> (r: Resul
     ensures
         (radix == 16 && s.spec_bytes().len() == 2 && hexval(s.spec_bytes()[0]) >= 0 && hexval(s.spec_bytes()[1]) >= 0)
             ==> r is Ok && r->Ok_0 as int == 16 * hexval(s.spec_bytes()[0]) + hexval(s.spec_bytes()[1]);
+// ---- std calls that only occur inside error-message arguments (the text is not verified; the call must be panic-free, which std guarantees) ----
+#[verifier::external_trait_specification]
+pub trait ExJoin<Separator> {
+    type ExternalTraitSpecificationFor: std::slice::Join<Separator>;
+    type Output;
+}
+/// `[S]::join(sep)`: total; the joined text is not specified
+pub assume_specification<T, S>[ <[T]>::join::<S> ](s: &[T], sep: S) -> (r: <[T] as std::slice::Join<S>>::Output)
+    where [T]: std::slice::Join<S>;
+/// `String::from_utf8_lossy`: total; the text is not specified
+pub assume_specification[ String::from_utf8_lossy ](v: &[u8]) -> (r: std::borrow::Cow<'_, str>);
